@@ -31,6 +31,12 @@ type HistOpts struct {
 	// (at most 6 records) in which one string in five is 66000..140000 bytes, so
 	// single page bodies exceed 64 KiB without many records.
 	HugePct int
+	// BoundaryPct: percent of histories of the "boundary" class: the page size is
+	// one of the sizes at which varints and run headers change length (127, 128,
+	// 129, 8191, 8192, 8193, 16383, 16384), batches are exactly one or two
+	// pages (or one page plus one record), and every pointer of a record is
+	// nil, or none is, so that level runs are exactly as long as the page.
+	BoundaryPct int
 	// NoEdge switches off the edge-value class (on by default: in 15 percent of
 	// the histories a quarter of the scalars are edge values: min/max integers,
 	// varint boundaries, NaN, infinities, negative zero, empty strings, strings
@@ -68,6 +74,9 @@ func GenHistory(r *Rng, o HistOpts) *WriterSpec {
 		}
 		w.Large = true
 	}
+	if o.BoundaryPct > 0 && r.Intn(1000) < o.BoundaryPct*10 {
+		return genBoundary(r, o)
+	}
 	if !o.NoEdge && r.Intn(100) < 15 {
 		o.Profile.EdgePct = 25
 		w.Edge = true
@@ -97,6 +106,9 @@ func GenHistory(r *Rng, o HistOpts) *WriterSpec {
 			mm = 80
 		}
 		nb = r.Range(10, mm)
+		if mm > 200 {
+			nb = r.Range(mm-60, mm) // the huge-footer variant wants the upper end
+		}
 		o.MaxOps = 3 * mm
 		w.Page = r.Range(1, 4)
 	}
@@ -343,4 +355,47 @@ func ShrinkWriter(w *WriterSpec) []*WriterSpec {
 		}
 	}
 	return out
+}
+
+// genBoundary draws a history of the boundary class (see HistOpts.BoundaryPct).
+func genBoundary(r *Rng, o HistOpts) *WriterSpec {
+	w := &WriterSpec{Boundary: true, Large: true}
+	w.Shape = o.Shapes[r.Intn(len(o.Shapes))]
+	w.Codec = Codecs[r.Pick(2, 2, 1)]
+	sizes := []int{127, 128, 129, 8191, 8192, 8193, 16383, 16384}
+	w.Page = sizes[r.Intn(len(sizes))]
+	sh := GetShape(w.Shape)
+	prof := o.Profile
+	prof.MaxList = 1
+	switch r.Intn(3) {
+	case 0:
+		prof.NilChance = 0
+	case 1:
+		prof.NilChance = 100
+	}
+	n := w.Page
+	switch r.Intn(4) {
+	case 0:
+		n = 2 * w.Page
+	case 1:
+		n = w.Page + 1
+	}
+	// one record drawn once and added n times keeps the cost of generation low
+	// and makes every level run as long as it can be
+	rec := GenRec(r, sh.Type, prof)
+	op := AddOp(rec)
+	for i := 0; i < n; i++ {
+		if i%64 == 63 && r.Chance(1, 8) {
+			op = AddOp(GenRec(r, sh.Type, prof))
+		}
+		w.Ops = append(w.Ops, op)
+	}
+	w.Ops = append(w.Ops, WriteOp())
+	if r.Chance(1, 2) {
+		w.Ops = append(w.Ops, AddOp(GenRec(r, sh.Type, prof)), WriteOp())
+	}
+	if !o.NoClose {
+		w.Ops = append(w.Ops, CloseOp())
+	}
+	return w
 }
